@@ -58,6 +58,13 @@ func Grow(cur realm, n int) int {
 	return len(items)
 }
 func Len() int { return len(items) }
+func Read(cur realm) string {
+	s := val
+	for _, it := range items {
+		s += "," + it.s[:1]
+	}
+	return s
+}
 `
 
 var (
@@ -122,6 +129,7 @@ var menu = []msgDef{
 // follow-ups by another signer
 func followUps(c *chainx.Chain) []std.Tx {
 	return []std.Tx{
+		c.MakeTx(keys, []std.Msg{chainx.Call(B.Addr, nil, stPath, "Read")}, chainx.TxOpt{}),
 		c.MakeTx(keys, []std.Msg{chainx.Run(B.Addr, nil, "package main\n\nimport \""+stPath+"\"\n\nfunc main() { println(st.Get(), st.Len()) }\n")}, chainx.TxOpt{}),
 	}
 }
@@ -131,6 +139,9 @@ func followUps2(c *chainx.Chain) []std.Tx {
 		c.MakeTx(keys, []std.Msg{chainx.Call(B.Addr, nil, stPath, "Write", "f")}, chainx.TxOpt{}),
 		c.MakeTx(keys, []std.Msg{chainx.AddPkg(B.Addr, "gno.land/r/verif/bad", map[string]string{"a.gno": "package bad\n\nvar X int = 7\n\nfunc G(cur realm) int { return X }\n"})}, chainx.TxOpt{}),
 		c.MakeTx(keys, []std.Msg{chainx.Call(B.Addr, nil, stPath, "Grow", "2")}, chainx.TxOpt{}),
+		// re-deploy (with different declarations at the same positions) the path a failed tx may have deployed, then call it
+		c.MakeTx(keys, []std.Msg{chainx.AddPkg(B.Addr, "gno.land/r/verif/new0", map[string]string{"a.gno": "package new0\n\nvar X = \"s\"\n\nfunc F(cur realm) string { X += \"t\"; return X }\n"})}, chainx.TxOpt{}),
+		c.MakeTx(keys, []std.Msg{chainx.Call(B.Addr, nil, "gno.land/r/verif/new0", "F")}, chainx.TxOpt{}),
 	}
 }
 
@@ -461,10 +472,24 @@ func head(s []string, n int) []string {
 	return s
 }
 
+func prio(c caseDef) int {
+	switch {
+	case strings.HasPrefix(c.name, "block-gas"):
+		return 0
+	case c.name == "single":
+		return 1
+	case c.name == "oog-ladder":
+		return 2
+	case c.name == "pair":
+		return 3
+	}
+	return 4
+}
+
 func main() {
 	debug.SetGCPercent(400)
 	r = vk.New("model_checking")
-	r.SetBudget(150*time.Second, 25*time.Minute)
+	r.SetBudget(240*time.Second, 25*time.Minute)
 	var cases []caseDef
 	n := len(menu)
 	for i := 0; i < n; i++ {
@@ -534,6 +559,7 @@ func main() {
 	}
 	r.Sample(map[string]any{"case": "pair[call_write,call_panic_after_write]", "meaning": "tx with an ok message followed by a message that writes and panics; must leave only fee+sequence"})
 	r.Sample(map[string]any{"case": "block-gas-60%[call_write]", "meaning": "second tx of a block whose gas crosses the block limit although GasWanted <= MaxGas"})
+	sort.SliceStable(cases, func(i, j int) bool { return prio(cases[i]) < prio(cases[j]) })
 	r.ParFor(len(cases), func(i int) { cases[i].run() })
 	r.Assumptions = []string{
 		"twin tx = same signer/fee/gas with one bank send of insufficient funds (fails in the handler before any write); its own ante-only-ness is checked by the independent decoded-key oracle",
